@@ -497,7 +497,10 @@ class PageLayout(object):
                     average_word_width = (text_line_hpos + text_line_width) / len(line.transcription.split())
                     for w, word in enumerate(line.transcription.split()):
                         string = ET.SubElement(text_line, "String")
-                        string.set("CONTENT", word)
+                        if arabic_line:
+                            string.set("CONTENT", arabic_helper.label_form_to_string(word))
+                        else:
+                            string.set("CONTENT", word)
 
                         string.set("HEIGHT", str(int(text_line_height)))
                         string.set("WIDTH", str(int(average_word_width)))
